@@ -115,8 +115,173 @@ def check(ctx):
     _mode_table(ctx, P)
     _wiring(ctx, P)
     _chunk_merge(ctx, P)
+    _merge_all_inputs(ctx, P)
     _chunked_test(ctx, P)
     _vector_lazy(ctx, P)
+    _lazy_contract(ctx, P)
+    _lazy_transform(ctx, P)
+    _rechunk_decision(ctx, P)
+
+
+def _lazy_contract(ctx, P):
+    """R06.8: what xarray.apply_ufunc needs to build the lazy result without computing anything: `output_dtypes` (one per
+    output) and, since the outputs have core dimensions the inputs lack, `dask_gufunc_kwargs['output_sizes']` naming every
+    output core dimension with its length in the grid's dataset (documented contract of apply_ufunc(dask='parallelized'))."""
+    fi = P.func("grid_ufunc:apply_as_grid_ufunc")
+    cases = [("(X:center)->(X:outer)", {"X": (1, 1)}, [dimsym("AX", "outer")], 1), ("(X:center)->(X:left),(X:right)", {"X": (1, 1)}, [dimsym("AX", "left"), dimsym("AX", "right")], 2)]
+    for sig, bw, out_dims, nout in cases:
+        inst = f"apply_ufunc arguments for lazy outputs, {sig}"
+        try:
+            outs = run_apply(P, sig, [(AX,)], boundary_width=bw, dask="parallelized")
+        except Unmodelled as e:
+            ctx.unknown("R06.8", inst, str(e))
+            continue
+        bad = None
+        seen = 0
+        for o in outs:
+            if o.kind != "return":
+                continue
+            for e in o.events:
+                if e[0] != "xr.apply_ufunc":
+                    continue
+                seen += 1
+                kw = e[2]
+                od = kw.get("output_dtypes")
+                if not (isinstance(od, (list, tuple)) and len(od) == nout):
+                    bad = bad or f"output_dtypes is {od!r}; one dtype per output ({nout}) is needed to build the lazy result"
+                dg = kw.get("dask_gufunc_kwargs")
+                sizes = dg.get("output_sizes") if isinstance(dg, dict) else None
+                if not isinstance(sizes, dict) or set(sizes) != set(out_dims):
+                    bad = bad or f"dask_gufunc_kwargs['output_sizes'] names {sorted(map(repr, sizes)) if isinstance(sizes, dict) else sizes!r}; every output core dimension {sorted(map(repr, out_dims))} changes length and must be given"
+                elif not all(isinstance(v, Obj) and v.kind == "sizes" and v.eff and v.eff[-1][0] == "getitem" and v.eff[-1][1] == d for d, v in sizes.items()):
+                    bad = bad or "an output size is not the length of that dimension in the grid's dataset"
+                if kw.get("dask") != "parallelized":
+                    bad = bad or f"the caller's dask mode does not reach apply_ufunc (dask={kw.get('dask')!r})"
+        if not seen:
+            bad = "xr.apply_ufunc is never reached"
+        if bad:
+            ctx.report("R06.8", fi, inst, bad)
+        else:
+            ctx.ok("R06.8", inst, "output_dtypes and output_sizes of every new core dimension, from the grid's dataset")
+
+
+def _lazy_transform(ctx, P):
+    """R06.8 for the two transform wrappers: their xarray.apply_ufunc call accepts lazy inputs (dask='parallelized'), names the
+    output dtype, and - where a core dimension is created - its length."""
+    from ..absint import FuncV
+
+    if not P.has_func("transform:input_handling"):
+        ctx.unknown("R06.8", "transform wrappers", "anchor transform:input_handling missing")
+        return
+    deco = P.func("transform:input_handling")
+    for q, new_len in (("transform:linear_interpolation", None), ("transform:conservative_interpolation", Lin.sym("len_target") - Lin.of(1))):
+        inst = f"apply_ufunc arguments of {q.split(':')[1]}"
+        if not P.has_func(q):
+            ctx.unknown("R06.8", inst, "anchor missing")
+            continue
+        raw = P.func(q)
+        au = []
+
+        def m_apply_ufunc(ev, args, kw, node, au=au):
+            au.append((list(args), dict(kw)))
+            ocd = kw.get("output_core_dims")
+            return make_da("APPLIED", [Sym("t")] + list(ocd[0] if ocd else []))
+
+        def rename(ev, recv, args, kw, node):
+            m = dict(args[0]) if args and isinstance(args[0], dict) else {}
+            return recv.with_eff(("rename", m), dims=tuple(m.get(d, d) for d in recv.attrs.get("dims", ())))
+
+        mm = dict(da_method_models())
+        mm[("DataArray", "rename")] = rename
+        mm[("DataArray", "__len__")] = lambda ev, r, a, k, n: Lin.sym("len_target")
+        am = dict(da_attr_models())
+        am[("DataArray", "data")] = lambda ev, o, n: Obj("ndarray", o.name + ".data")
+        am[("DataArray", "dtype")] = lambda ev, o, n: Sym("dtype_of_" + o.name)
+        ev = Evaluator(P, models={"xarray.apply_ufunc": m_apply_ufunc}, method_models=mm, attr_models=am)
+        try:
+            wrapper = ev.call(FuncV(deco, deco.node, None, "transform"), [FuncV(raw, raw.node, None, "transform")], {}, None)
+            ev.events, ev.decisions, ev._prefix, ev._pending = [], [], [], []
+            ev.call(wrapper, [make_da("phi", [Sym("t"), Sym("zc")], name=Sym("phi_name")), make_da("theta", [Sym("t"), Sym("zo")]), make_da("levels", [Sym("lev")]), Sym("zc"), Sym("zo"), Sym("lev")], {}, None)
+        except Unmodelled as e:
+            ctx.unknown("R06.8", inst, str(e))
+            continue
+        except Exception as e:
+            ctx.unknown("R06.8", inst, f"{type(e).__name__}: {e}")
+            continue
+        bad = None
+        if len(au) != 1:
+            bad = "xr.apply_ufunc is not called exactly once"
+        else:
+            kw = au[0][1]
+            if kw.get("dask") != "parallelized":
+                bad = f"dask={kw.get('dask', '<not given: forbidden>')!r}: a dask-backed input is refused instead of being transformed lazily"
+            od = kw.get("output_dtypes")
+            if not (isinstance(od, (list, tuple)) and len(od) == 1 and od[0] == Sym("dtype_of_phi")):
+                bad = bad or f"output_dtypes={od!r}; the lazy result needs the dtype of the transformed data"
+            ocd = kw.get("output_core_dims")
+            icd = kw.get("input_core_dims")
+            new_dims = [d for d in (ocd[0] if isinstance(ocd, list) and ocd else []) if not any(d in x for x in (icd or []))]
+            if new_dims:
+                dg = kw.get("dask_gufunc_kwargs")
+                sizes = dg.get("output_sizes") if isinstance(dg, dict) else None
+                if not isinstance(sizes, dict) or set(sizes) != set(new_dims):
+                    bad = bad or f"the output gets the new core dimension {new_dims!r} but dask_gufunc_kwargs['output_sizes'] is {sizes!r}"
+                elif new_len is not None and any(Lin.of(v) != new_len for v in sizes.values()):
+                    bad = bad or f"declared length of the new dimension is {list(sizes.values())[0]!r}; the bins between len(target) bounds are len(target) - 1"
+        if bad:
+            ctx.report("R06.8", raw, inst, bad)
+        else:
+            ctx.ok("R06.8", inst, "dask='parallelized', output dtype of the data" + (", length of the new dimension" if new_len is not None else ""))
+
+
+def _rechunk_decision(ctx, P):
+    """R06.9: after padding, the lonely boundary chunks are merged exactly when a core dimension is chunked; every input
+    comes back (padded, in order), merged or not."""
+    fi = P.func("grid_ufunc:_pad_then_rechunk")
+    dx, dy, t = dimsym("AX", "center"), dimsym("AY", "center"), Sym("t")
+    one, two = (Lin.sym("n"),), (Lin.sym("n0"), Lin.sym("n1"))
+    configs = [("in-memory", None, False), ("lazy, one chunk per dimension", {t: one, dy: one, dx: one}, False), ("lazy, chunked along the core dimension", {t: one, dy: one, dx: two}, True),
+               ("lazy, chunked along a non-core dimension only", {t: two, dy: two, dx: one}, False)]
+    for cname, chunks, want in configs:
+        inst = f"pad then merge boundary chunks, {cname}"
+        am = dict(apply_attr_models())
+        am[("DataArray", "chunks")] = (lambda ev, o, n, chunks=chunks: None if chunks is None else tuple(chunks[d] for d in (t, dy, dx)))
+        am[("DataArray", "variable")] = (lambda ev, o, n, chunks=chunks: Obj("Variable", "variable", (), {"chunksizes": dict(chunks or {})}))
+        am[("DataArray", "chunksizes")] = (lambda ev, o, n, chunks=chunks: dict(chunks or {}))
+        ev = Evaluator(P, models=apply_models(), attr_models=am, method_models=da_method_models())
+
+        def make():
+            a = make_da("a", [t, dy, dx])
+            b = make_da("b", [t, dy, dx])
+            return dict(args=[a, b], grid=make_grid(("AX", "AY")), in_core_dims=[[dx], [dx]], boundary_width_real_axes={AX: (1, 1)}, boundary=Sym("B"), fill_value=Sym("F"),
+                        other_component=[None, None])
+
+        try:
+            outs = ev.run_paths(fi, make)
+        except Unmodelled as e:
+            ctx.unknown("R06.9", inst, str(e))
+            continue
+        bad = None
+        for o in outs:
+            if o.kind != "return":
+                bad = f"raises {o.value}"
+                continue
+            rc = [e for e in o.events if e[0] == "rechunk"]
+            v = o.value
+            names = [x.name if isinstance(x, Obj) else x for x in v] if isinstance(v, (list, tuple)) else None
+            ops = [[e[0] for e in x.eff] if isinstance(x, Obj) else None for x in v] if isinstance(v, (list, tuple)) else None
+            if names != ["a", "b"]:
+                bad = f"returns {v!r}; one padded array per input, in order, is expected"
+            elif want and (len(rc) != 1 or not all(op == ["PAD", "RECHUNK"] for op in ops)):
+                bad = f"a chunked core dimension: the boundary chunks created by padding are not merged (operations {ops})"
+            elif want and rc[0][1].get("boundary_width_real_axes") != {AX: (1, 1)}:
+                bad = "the merge is not told the widths that were padded"
+            elif not want and (rc or not all(op == ["PAD"] for op in ops)):
+                bad = f"no core dimension is chunked, yet the arrays are re-chunked (operations {ops})"
+        if bad:
+            ctx.report("R06.9", fi, inst, bad)
+        else:
+            ctx.ok("R06.9", inst, "merged" if want else "left as padded")
 
 
 def _refusal(ctx, P):
@@ -195,6 +360,9 @@ def _mode_table(ctx, P):
         ("lazy, chunked along AX and AY", {t: one, dy: two, dx: two}),
         ("lazy, chunked along a non-core dimension only", {t: two, dy: one, dx: one}),
     ]
+    from ..registry import gridufunc_attrs
+
+    gu_defaults = gridufunc_attrs(P, {})
     for funcname in ("diff", "cumsum"):
         rows = set()
         bad = None
@@ -223,7 +391,8 @@ def _mode_table(ctx, P):
                         bad = bad or f"{cname}: {len(ufs)} grid-ufunc calls for two axes"
                         continue
                     for ax, u in zip(order, ufs):
-                        kw = u[4]
+                        # an option the dispatch does not pass takes the value the (predefined) grid ufunc has bound
+                        kw = {**gu_defaults, **u[4]}
                         chunked = lazy and len(chunks[dx if ax == AX else dy]) > 1
                         rows.add((lazy, chunked, kw.get("dask"), kw.get("map_overlap")))
                         where = f"{cname}, axis {ax.name} of {[a.name for a in order]}: "
@@ -346,6 +515,50 @@ def _chunk_merge(ctx, P):
                 ctx.ok("R06.5", f"chunk merge, {name}", f"{chunks} -> {want}")
         except Unmodelled as e:
             ctx.unknown("R06.5", f"chunk merge, {name}", str(e))
+
+
+def _merge_all_inputs(ctx, P):
+    """R06.5 (whole function): every padded input comes back, in order, re-chunked with the pattern computed from *its own*
+    unpadded chunks."""
+    fi = P.func("grid_ufunc:_rechunk_to_merge_in_boundary_chunks")
+    dim = dimsym("AX", "center")
+    chunks = {"a": (Lin.sym("a0"), Lin.sym("a1")), "b": (Lin.sym("b0"), Lin.sym("b1"), Lin.sym("b2"))}
+
+    def variable(ev, o, n):
+        return Obj("Variable", "variable", (), {"chunksizes": {dim: chunks[o.name], Sym("t"): (Lin.sym("ct"),)}})
+
+    def chunk(ev, recv, args, kw, node):
+        return recv.with_eff(("chunk", args[0] if args else kw))
+
+    am = dict(da_attr_models())
+    am[("DataArray", "variable")] = variable
+    mm = dict(da_method_models())
+    mm[("DataArray", "chunk")] = chunk
+    ev = Evaluator(P, attr_models=am, method_models=mm)
+    inst = "merge for two inputs with different chunking"
+    try:
+        outs = ev.run_paths(fi, lambda: dict(padded_args=[make_da("pa", [Sym("t"), dim]), make_da("pb", [Sym("t"), dim])], original_args=[make_da("a", [Sym("t"), dim]), make_da("b", [Sym("t"), dim])],
+                                             boundary_width_real_axes={AX: (1, 2)}, grid=make_grid(("AX", "AY"))))
+    except Unmodelled as e:
+        ctx.unknown("R06.5", inst, str(e))
+        return
+    bad = None
+    want = {"pa": (chunks["a"][0] + Lin.of(1), chunks["a"][1] + Lin.of(2)), "pb": (chunks["b"][0] + Lin.of(1), chunks["b"][1], chunks["b"][2] + Lin.of(2))}
+    for o in outs:
+        v = o.value
+        if o.kind != "return" or not isinstance(v, (list, tuple)) or [getattr(x, "name", None) for x in v] != ["pa", "pb"]:
+            bad = f"{o.kind} {v!r}; one re-chunked array per padded input, in order, is expected"
+            continue
+        for x in v:
+            ch = [e for e in x.eff if e[0] == "chunk"]
+            pat = ch[0][1] if len(ch) == 1 else None
+            got = tuple(pat.get(dim, ())) if isinstance(pat, dict) else None
+            if got is None or len(got) != len(want[x.name]) or any(Lin.of(g) != Lin.of(w) for g, w in zip(got, want[x.name])):
+                bad = f"padded input {x.name} is re-chunked to {got!r} along the padded dimension; expected {want[x.name]!r} (from its own unpadded chunks)"
+    if bad:
+        ctx.report("R06.5", fi, inst, bad)
+    else:
+        ctx.ok("R06.5", inst, "each input re-chunked with the pattern of its own chunks")
 
 
 def _vector_lazy(ctx, P):
